@@ -118,6 +118,8 @@ class TarWriter:
         self.out = bytearray()
         self.r = r
         self.notes = set()
+        # true V7 archives mark directories by a trailing slash only (every second v7 archive, decided by the seeded generator)
+        self.v7_dirs_by_name = bool(r and dialect == "v7" and r.random() < 0.5)
 
     def _emit_ext(self, typeflag, name, payload):
         hdr = _header(name[:100], 0o644, 0, 0, len(payload), 0, typeflag, b"", self.d if self.d != "v7" else "ustar")
@@ -137,6 +139,10 @@ class TarWriter:
             tf = b"1"
         if d == "v7" and tf == b"0":
             tf = b"\0"
+        if d == "v7" and tf == b"5" and self.v7_dirs_by_name:
+            # Unix V7 has no type flag for directories: a directory is a member whose name ends in '/'
+            tf = b"\0"
+            self.notes.add("v7-dir-by-trailing-slash")
         link = linkname if linkname is not None else (n.target if n.type == "slink" else b"")
         pax = []
         uid, gid, mtime = n.uid, n.gid, n.mtime
@@ -160,6 +166,12 @@ class TarWriter:
                         pax.append((b"GNU.sparse.offset", b"%d" % o))
                         pax.append((b"GNU.sparse.numbytes", b"%d" % l))
                 elif self.sparse == "0.1":
+                    if self.r and self.r.random() < 0.5:
+                        # the way GNU tar writes 0.x members: real name in GNU.sparse.name, a made up name in the header
+                        # (and, if that one is too long for the header, in a path record that FOLLOWS GNU.sparse.name)
+                        pax.append((b"GNU.sparse.name", name))
+                        name = os.path.dirname(name) + b"/GNUSparseFile.4659/" + os.path.basename(name) if b"/" in name else b"GNUSparseFile.4659/" + name
+                        self.notes.add("sparse-0.1-fake-header-name")
                     pax.append((b"GNU.sparse.size", b"%d" % realsize))
                     pax.append((b"GNU.sparse.numblocks", b"%d" % len(regions)))
                     pax.append((b"GNU.sparse.map", b",".join(b"%d,%d" % (o, l) for o, l in regions)))
@@ -251,6 +263,11 @@ class TarWriter:
         # old GNU header: sparse entries at 386 (4 x (12+12)), isextended at 482, realsize at 483
         first, rest = regions[:4], regions[4:]
         pos = 386
+        # GNU tar stores numbers that need more than 11 octal digits in base-256 (offsets from 8 GiB on); readers accept
+        # base-256 for any value, so the b256 numeric mode uses it for every map entry
+        _num = (lambda v, w, allow: _base256(v, w)) if self.numeric == "b256" else globals()["_num"]
+        if self.numeric == "b256":
+            self.notes.add("sparse-map-base256")
         for o, l in first:
             h[pos:pos + 12] = _num(o, 12, True)
             h[pos + 12:pos + 24] = _num(l, 12, True)
